@@ -63,7 +63,7 @@ PROPS = {
   "technique": "Coq structural induction over the step function + differential replay",
  },
  "C16": {
-  "tests": ["TestC16"],
+  "tests": ["TestC16", "TestC16Concurrent"],
   "rule": "all six limit kinds x {plain, traced, windowed, traced(windowed)}, listeners registered at random points of the history, explicit SetLimit on the settable limit; "
           "non-trivial = a step that changed the reported estimate with at least one listener registered; distinct by (kind, wrapper, before, after, listener)",
   "level_text": "C16_step, C16_last_agrees, C16_suffix, C16_settable proved for every limit kind, wrapper and history.",
@@ -71,7 +71,7 @@ PROPS = {
   "technique": "Coq structural theorems over all limit models + differential replay of per-listener logs",
  },
  "C18": {
-  "tests": ["TestC18"],
+  "tests": ["TestC18", "TestC18Interleaved"],
   "rule": "six measurement types x random constructor arguments x random interleavings of Add/Get/Reset/Update with positive finite samples; every Add is checked against the "
           "named quantity (minimum / latest / warm-up mean / hull) and the changed-flag; each case ends with Reset and a twin run against a new instance; sample windows are "
           "built twice in two random orders; non-trivial = an Add on a distinct (type, configuration, position, value), a reset twin, a distinct window multiset",
